@@ -68,6 +68,7 @@ def empty_graph(cls, directed=None):
 Tok = z3.DeclareSort("OrderToken")
 PathSeq = z3.DeclareSort("NodeSequence")
 plen = z3.Function("seq_len", PathSeq, I)
+p_on = z3.Function("seq_has", PathSeq, Atom, B)   # node x occurs in the node sequence p
 SetA = set_sort(Atom)
 IA = z3.Datatype("IndAssertion")
 IA.declare("mk", ("event1", SetA), ("event2", SetA), ("event3", SetA))
@@ -178,6 +179,29 @@ class PathTheory:
             self.ex.axioms.append(z3.Implies(self.acyclic(E), ax))
             self.rels[k] = (E, F)
         return self.rels[k][1]
+
+    def avoid_rel(self, E, W):
+        """ghost relation: E without the nodes of W (one relation per (E, W) pair of terms; monotonicity instances against every
+        relation in play are added, so that a pointwise-equal relation has the same paths)"""
+        key = ("avoid", E.get_id(), W.get_id())
+        if key not in self.rels:
+            a, b = fresh("a", Atom), fresh("b", Atom)
+            EW = fresh("E_minus", RelSort)
+            self.ex.axioms.append(z3.ForAll([a, b], EW[a, b] == z3.And(E[a, b], z3.Not(W[a]), z3.Not(W[b]))))
+            self.rels[key] = ((E, W), EW)
+            self.watch_rel(EW)
+        return self.rels[key][1]
+
+    def sp_avoid(self, E, u, v, W):
+        """assumed theorem of nx.all_simple_paths on a DAG (u != v): some listed u~>v path avoids the node set W  <=>  v is reachable
+        from u in the graph without the nodes of W  (instance of the schema for one W)."""
+        F = self.simple_paths(E)
+        x, p = fresh("x", Atom), fresh("p", PathSeq)
+        PW = self.path(self.avoid_rel(E, W))
+        self.ex.assumed.add("nx.all_simple_paths(G, u, v) on a DAG, u != v: a listed path avoiding a node set W exists iff v is reachable from u "
+                            "in G minus W; every node of a listed path lies between u and v (assumed library contract)")
+        return z3.And(z3.Exists([p], z3.And(F(u, v)[p], z3.ForAll([x], z3.Implies(p_on(p, x), z3.Not(W[x]))))) == z3.And(z3.Not(W[u]), PW(u, v)),
+                      z3.ForAll([p, x], z3.Implies(z3.And(F(u, v)[p], p_on(p, x)), z3.And(self.path(E)(u, x), self.path(E)(x, v)))))
 
     def acyclic(self, E):
         a, b = fresh("a", Atom), fresh("b", Atom)
@@ -518,6 +542,18 @@ class Lib:
                 return Coll("frozenset", Atom, z3.Store(empty_set(Atom), x.z, True), items=[x])
             c = ex.as_coll(x, st, Atom)
             return Coll("frozenset", Atom, c.mem if c.mem is not None else empty_set(Atom))
+        if name == "pgmpy.utils.sets._powerset":
+            # assumed contract of the helper: every subset of the argument, each exactly once (as a tuple; the listing order is not modelled)
+            ex.assumed.add("pgmpy.utils.sets._powerset(S): every subset of S exactly once, as tuples, in an unmodelled order")
+            c = ex.as_coll(args[0], st, Atom)
+            if not c.nodup:
+                raise Unsupported("_powerset of a sequence with possible duplicates")
+            ss = set_sort(c.esort if c.esort is not None else Atom)
+            base = c.mem if c.mem is not None else empty_set(Atom)
+            S = fresh("S", ss)
+            r = Coll("iter", ss, z3.Lambda([S], subset(S, base, ss.domain())), nodup=True)
+            r.elem_kind = "tuple"
+            return r
         if name in ("nx.all_simple_paths",):
             g, u, v = args[0], z3_of(args[1]), z3_of(args[2])
             ex.oblige(st, z3.And(N_(g, u), N_(g, v)), "call.nx.all_simple_paths.nodes-present")
